@@ -111,13 +111,17 @@ theorem cacheStore_inv (clock : Nat → Nat) (off : Nat) (cfg : Cfg) (mem : Mem)
           omega
       split
       · split
-        · exact h
+        · split
+          · exact inv_set _ _ _ _ _ h hnew
+          · exact h
         · exact inv_set _ _ _ _ _ h hnew
       · exact inv_set _ _ _ _ _ h hnew
 
-/-- an error response (rcode ≠ 0) is stored set-if-absent: if the key has a node, Store changes nothing -/
+/-- an error response (rcode ≠ 0) is stored set-if-absent: if the key has a live node (not expired on the cache
+    clock at the time of the Store), Store changes nothing -/
 theorem cacheStore_neg_present (clock : Nat → Nat) (cfg : Cfg) (mem : Mem) (k : Nat) (m : Msg)
-    (now delay id : Nat) (e : Entry) (hneg : m.rcode ≠ 0) (hlive : mem k = some e) :
+    (now delay id : Nat) (e : Entry) (hneg : m.rcode ≠ 0) (hpres : mem k = some e)
+    (hlive : clock (now + delay) < e.expTick) :
     cacheStore clock cfg mem k (some m) now delay id = mem := by
   unfold cacheStore
   cases hs : store cfg.hasBackend (some m) cfg.maximumTtl with
@@ -125,7 +129,8 @@ theorem cacheStore_neg_present (clock : Nat → Nat) (cfg : Cfg) (mem : Mem) (k 
   | some c =>
     have hc := store_some _ _ _ _ hs
     have hnx : c.setNX = true := by rw [hc.2.2.2.2]; simp [hneg]
-    simp [otterSet, hnx, hlive]
+    have hx : ¬ e.expTick ≤ clock (now + delay) := by omega
+    simp [otterSet, hnx, hpres, hx]
 
 /-- a positive response (rcode 0, not truncated) is stored with Set and replaces whatever is there -/
 theorem cacheStore_pos (clock : Nat → Nat) (cfg : Cfg) (mem : Mem) (k : Nat) (m : Msg) (now delay id : Nat)
@@ -203,7 +208,7 @@ def ObsOK (cfg : Cfg) (off : Nat) : Step → Obs → Prop
   | .get _ _, .miss => True
   | .query _ _ t _, .q (.cached id served) =>
     ∃ e, e.id = id ∧ EntryOK cfg off e ∧ t < e.expire + 2 * G ∧
-      served = removeEDNS0 (subtractTTL e.msg (elapsedDelta (t - e.stored)))
+      served = popEDNS0 (subtractTTL e.msg (elapsedDelta (t - e.stored)))
   | .query _ (.reply m) _ _, .q (.upstream _ m') => m' = removeEDNS0 m
   | .query _ .err _ _, .q .failed => True
   | .store _ _ _ _, .none => True
@@ -274,23 +279,20 @@ theorem lifetimeBounds (m : Msg) (cfgMax : Int) (h1 : -9223372037 < cfgMax) (h2 
     ((getMinimalTTL m).2 = true → 1 ≤ (getMinimalTTL m).1.toNat →
         storeTtl m (initMaxTtl cfgMax) ≤ (getMinimalTTL m).1.toNat * second) ∧
     ((getMinimalTTL m).2 = true → (getMinimalTTL m).1.toNat = 0 → storeTtl m (initMaxTtl cfgMax) = second) := by
-  have hcapv := initMaxTtl_eq cfgMax h1 h2
-  have hcap : second ≤ initMaxTtl cfgMax := by
-    rw [hcapv]; unfold defaultMaxCacheTtl second; split <;> omega
+  obtain ⟨hcap, -, -, hdef, hcfg, -⟩ := initMaxTtl_bounds cfgMax h1 h2
   rw [storeTtl_eq]
   have hb := baseTtl_bounds m.rcode (getMinimalTTL m).1.toNat (getMinimalTTL m).2
   have hc := clampTtl_bounds _ (initMaxTtl cfgMax) hcap hb.1
   generalize baseTtl m.rcode (getMinimalTTL m).1.toNat (getMinimalTTL m).2 = B at hb hc ⊢
   generalize clampTtl B (initMaxTtl cfgMax) = L at hc ⊢
   generalize (getMinimalTTL m).1.toNat = u at hb ⊢
+  generalize initMaxTtl cfgMax = cap at *
   obtain ⟨-, b3, b2, b5, bno, bhas⟩ := hb
   obtain ⟨c1, c2, c3, c4⟩ := hc
-  unfold defaultMaxCacheTtl at hcapv
   unfold second at *
   refine ⟨c1, c2, ?_, ?_, ?_, ?_, ?_, ?_, ?_, ?_⟩
-  · intro h; rw [hcapv] at c2; simp only [h, if_true] at c2; omega
-  · intro h; rw [hcapv] at c2; have : ¬ cfgMax ≤ 0 := by omega
-    simp only [this, if_false] at c2; exact c2
+  · intro h; have := hdef h; omega
+  · intro h; have := hcfg h; omega
   · intro h; have := b3 h; omega
   · intro h; have := b2 h; omega
   · intro h0 h2' h3; have := b5 h0 h2' h3; omega
